@@ -62,6 +62,9 @@ Clauses(r) ==
   IF r.exc # "" THEN << <<"UnexpectedException", FALSE>> >>
   ELSE IF ~MasksOk(r) THEN << <<"MaskShape", FALSE>> >>
   ELSE <<
+    (* intervals are created for the configured value range only: at most one more than the ideal   *)
+    (* number (float arange may add one), none that starts beyond the upper limit                    *)
+    <<"IntervalsWithinValueRange", K(r) <= IdealK(r) + 1>>,
     <<"AtMostOne", \A j \in 1..N(r) : Cardinality(InSet(r.raw, j)) <= 1>>,
     <<"ExactlyOne", \A j \in 1..N(r) : Cov(r, j) => Cardinality(InSet(r.raw, j)) = 1>>,
     <<"Membership", \A j \in 1..N(r) : Cov(r, j) => InSet(r.raw, j) \subseteq Acc(r, j)>>,
